@@ -1144,3 +1144,88 @@ Proof. vm_compute. reflexivity. Qed.
 Lemma ex_number_result :
   redact_email [104;101;108;108;111;64;49;50;51;46;52;53;54]%N = Ok ([104;101;108;108;111;64;49;50;51;46;52;53;54]%N, []).
 Proof. vm_compute. reflexivity. Qed.
+
+(* ------------------------------------------------------------------------------------------ *)
+(* further consequences *)
+
+Lemma spans_ordered_hi : forall l lo hi, spans_ordered lo l hi -> lo <= hi.
+Proof.
+  induction l as [|[s e] l IH]; intros lo hi H; simpl in H; [exact H|].
+  destruct H as [H1 [H2 H3]]. specialize (IH _ _ H3). lia.
+Qed.
+
+(* the bytes outside the spans keep their order *)
+Lemma out_index_mono : forall spans lo hi i j,
+  spans_ordered lo spans hi -> lo <= i -> i < j -> ~ covered spans i -> ~ covered spans j ->
+  out_index lo spans i < out_index lo spans j.
+Proof.
+  induction spans as [|[s e] r IH]; intros lo hi i j Hord Hlo Hij Hi Hj; cbn [out_index].
+  - lia.
+  - cbn [spans_ordered] in Hord. destruct Hord as [H1 [H2 H3]].
+    assert (Hout : forall k, ~ covered ((s, e) :: r) k -> s <= k -> e <= k).
+    { intros k Hk Hs. destruct (Nat.le_gt_cases e k); [assumption|]. exfalso. apply Hk. exists s, e. split; [left; reflexivity | lia]. }
+    assert (Htl : forall k, ~ covered ((s, e) :: r) k -> ~ covered r k).
+    { intros k Hk [s1 [e1 [Hin Hr]]]. apply Hk. exists s1, e1. split; [right; exact Hin | exact Hr]. }
+    destruct (i <? s) eqn:Ei; destruct (j <? s) eqn:Ej; try lia.
+    assert (e <= i) by (apply Hout; [exact Hi | lia]).
+    assert (out_index e r i < out_index e r j); [|lia].
+    eapply IH; [exact H3 | lia | lia | apply Htl; exact Hi | apply Htl; exact Hj].
+Qed.
+
+Lemma splice_length : forall t spans lo,
+  spans_ordered lo spans (length t) ->
+  length (splice t lo spans) + span_bytes spans = (length t - lo) + length marker * length spans.
+Proof.
+  intros t spans. induction spans as [|[s e] r IH]; intros lo Hord; cbn [splice span_bytes].
+  - rewrite skipn_length. simpl. lia.
+  - cbn [spans_ordered] in Hord. destruct Hord as [H1 [H2 H3]].
+    pose proof (spans_ordered_hi _ _ _ H3) as He. specialize (IH e H3).
+    rewrite !app_length. rewrite firstn_length_le by (rewrite skipn_length; lia).
+    cbn [length] in *. lia.
+Qed.
+
+Lemma length_lemma : forall t out spans, redact_email t = Ok (out, spans) ->
+  length out + span_bytes spans = length t + 8 * length spans.
+Proof.
+  intros t out spans H. destruct (structure_lemma _ _ _ H) as [H1 H2]. subst out.
+  pose proof (splice_length t spans 0 H1) as HL. change (length marker) with 8 in HL. unfold span in *. lia.
+Qed.
+
+Lemma order_preserved_lemma : forall t out spans i j, redact_email t = Ok (out, spans) ->
+  i < j -> ~ covered spans i -> ~ covered spans j -> out_index 0 spans i < out_index 0 spans j.
+Proof.
+  intros t out spans i j H Hij Hi Hj. destruct (structure_lemma _ _ _ H) as [H1 _].
+  eapply out_index_mono; [exact H1 | lia | exact Hij | exact Hi | exact Hj].
+Qed.
+
+(* a span consists of address characters and '@' only - all of them ASCII: no multi-byte character is
+   ever cut or removed *)
+Lemma span_chars_lemma : forall t out spans es ee i, redact_email t = Ok (out, spans) -> In (es, ee) spans ->
+  es <= i < ee -> exists c, nth_error t i = Some c /\ (addr_ch c \/ c = 64%N) /\ (c < 128)%N.
+Proof.
+  intros t out spans es ee i H Hin Hi.
+  destruct (sound_lemma _ _ _ _ _ H Hin) as [s [a [H1 [H2 [H3 HE]]]]].
+  destruct (email_shape_facts _ _ _ _ _ HE) as [Hat [_ [_ [_ [_ [Hl Hr]]]]]].
+  assert (Hlt : forall c, addr_ch c -> (c < 128)%N) by (intro c; unfold addr_ch, word_ch, digit_ch; lia).
+  destruct (Nat.lt_trichotomy i a) as [Hlt'|[Heq|Hgt]].
+  - destruct (Hl i) as [c [Hc Hac]]; [lia|]. exists c. split; [exact Hc|]. split; [left; exact Hac | apply Hlt; exact Hac].
+  - subst i. exists 64%N. split; [exact Hat|]. split; [right; reflexivity | lia].
+  - destruct (Hr i) as [c [Hc Hac]]; [lia|]. exists c. split; [exact Hc|]. split; [left; exact Hac | apply Hlt; exact Hac].
+Qed.
+
+(* the specification is unambiguous: one '@', at most one address *)
+Lemma email_at_deterministic : forall t s a e s' e', email_at t s a e -> email_at t s' a e' -> s = s' /\ e = e'.
+Proof.
+  intros t s a e s' e' H1 H2.
+  pose proof (boundary_complete t s a e 0 H1 (Nat.le_0_l _)) as B1.
+  pose proof (boundary_complete t s' a e' 0 H2 (Nat.le_0_l _)) as B2.
+  rewrite B1 in B2. inversion B2. split; lia.
+Qed.
+
+Lemma order_and_length_lemma : forall t out spans, redact_email t = Ok (out, spans) ->
+  length out + span_bytes spans = length t + 8 * length spans /\
+  forall i j, i < j -> ~ covered spans i -> ~ covered spans j -> out_index 0 spans i < out_index 0 spans j.
+Proof.
+  intros t out spans H. split; [exact (length_lemma t out spans H) | ].
+  intros i j. exact (order_preserved_lemma t out spans i j H).
+Qed.
